@@ -75,6 +75,9 @@ func parseDVBDurationByte(i byte) time.Duration {
 }
 
 func writeDVBTime(w *astikit.BitsWriter, t time.Time) (int, error) {
+	// Date and time of day are those of UTC, whatever the location of t
+	t = t.UTC()
+
 	year := t.Year() - 1900
 	month := t.Month()
 	day := t.Day()
